@@ -17,6 +17,7 @@ from `arm()`) by a fault:
   ('garbled', bytes)           response frame replaced by the given bytes
   ('ackgarbled', bytes)        the given bytes arrive in place of the ACK frame (the response follows)
   ('empty',)                   well-formed response frame without any payload after the response code
+  ('payload', n)               well-formed response frame whose payload (after the response code) is cut to n bytes
 
 Time is virtual: `VClock` is installed as the `time` attribute of the driver modules.
 Nothing here is imported by the Coq side; the statement being checked is about the real drivers
@@ -161,7 +162,9 @@ class HostSimBase(object):
         self.bad_commands = []    # malformed command frames written by the driver
         self.fired = False
         self.frame_lens = {}
+        self.payload_lens = {}
         self.fault_payload = None
+        self.fault_cmd_data = None
         self.tty = FakeTTY()
         self.remote = lambda data: b''       # RF side for initiator exchanges
         self.initiator_cmds = []             # RF side for target exchanges: next commands from the initiator
@@ -181,7 +184,9 @@ class HostSimBase(object):
         self.trace = []
         self.fired = False
         self.frame_lens = {}        # command index -> length of the response frame that was queued
-        self.fault_payload = None   # payload (after the response code) sent for a status/empty fault
+        self.payload_lens = {}      # command index -> length of the normal response payload
+        self.fault_payload = None   # payload (after the response code) sent for a status/empty/payload fault
+        self.fault_cmd_data = None  # parameters of the host command that was hit by the fault
 
     def _fault_for(self, idx):
         if self.fault_at is not None and idx == self.fault_at:
@@ -352,6 +357,7 @@ class Pn53xSim(HostSimBase):
         if kind == 'ioerror' and fault[2] == 'write':
             raise ioerr(fault[1])
         payload = self.handle(cmd, bytes(data))
+        self.payload_lens[idx] = len(payload) if payload is not None else 0
         q = []
         # acknowledge stage
         if kind == 'timeout' and fault[1] == 'ack':
@@ -374,6 +380,9 @@ class Pn53xSim(HostSimBase):
         elif kind == 'empty':
             self.fault_payload = b''
             q.append(pn53x_frame(bytes([0xD5, cmd + 1])))
+        elif kind == 'payload':
+            self.fault_payload, self.fault_cmd_data = payload[:fault[1]], bytes(data)
+            q.append(pn53x_frame(bytes([0xD5, cmd + 1]) + payload[:fault[1]]))
         elif kind == 'short':
             q.append(pn53x_frame(bytes([0xD5, cmd + 1]) + payload)[:fault[1]])
         elif kind == 'garbled':
@@ -436,6 +445,7 @@ class Acr122Sim(Pn53xSim):
         if kind == 'ioerror' and fault[2] == 'write':
             raise ioerr(fault[1])
         payload = self.handle(cmd, bytes(data))
+        self.payload_lens[idx] = len(payload) if payload is not None else 0
         if kind == 'timeout' or payload is None:
             self.queue = []
         elif kind == 'ioerror':
@@ -450,6 +460,9 @@ class Acr122Sim(Pn53xSim):
         elif kind == 'empty':
             self.fault_payload = b''
             self.queue = [self.ccid(bytes([0xD5, cmd + 1]) + b'\x90\x00')]
+        elif kind == 'payload':
+            self.fault_payload, self.fault_cmd_data = payload[:fault[1]], bytes(data)
+            self.queue = [self.ccid(bytes([0xD5, cmd + 1]) + payload[:fault[1]] + b'\x90\x00')]
         elif kind == 'short':
             self.queue = [self.ccid(bytes([0xD5, cmd + 1]) + payload + b'\x90\x00')[:fault[1]]]
         elif kind in ('garbled', 'ackgarbled'):
@@ -539,6 +552,7 @@ class Rcs380Sim(HostSimBase):
         if kind == 'ioerror' and fault[2] == 'write':
             raise ioerr(fault[1])
         payload = self.handle(cmd, bytes(data))
+        self.payload_lens[idx] = len(payload)
         if kind == 'timeout' and fault[1] == 'ack':
             self.queue = []
             return
@@ -560,6 +574,9 @@ class Rcs380Sim(HostSimBase):
             q.append(rcs380_frame(bytes([0xD7, cmd + 1]) + payload[:off] + struct.pack('<L', fault[1]) + payload[off + 4:]))
         elif kind == 'empty':
             q.append(rcs380_frame(bytes([0xD7, cmd + 1])))
+        elif kind == 'payload':
+            self.fault_payload, self.fault_cmd_data = payload[:fault[1]], bytes(data)
+            q.append(rcs380_frame(bytes([0xD7, cmd + 1]) + payload[:fault[1]]))
         elif kind == 'short':
             q.append(rcs380_frame(bytes([0xD7, cmd + 1]) + payload)[:fault[1]])
         elif kind == 'garbled':
